@@ -310,7 +310,17 @@ def main(argv):
             loc = os.path.join(work, "inst", "p%d" % p["slot"])
             d["experiment"] = _outcome(lambda: route_experiment(pdir, varpaths, manifest, p["platform"], loc))
         dumps.append(canon(d))
-    out = {"hashseed": HASHSEED, "hash_of_probe": hash("c15-probe") & 0xffff, "pkgs": dumps}
+    # probes: evidence that the three sources of variation are live in this process
+    probe_names = ["conf", "data", "bin", "input", "lib", "Lib", "stages", "output", "aux", "extra"]
+    probe_dir = os.path.join(work, "probe")
+    for n in probe_names:
+        os.makedirs(os.path.join(probe_dir, n))
+    out = {"hashseed": HASHSEED, "hash_of_probe": hash("c15-probe") & 0xffff,
+           "set_order_probe": list(set(probe_names)),
+           "listing_probe": os.listdir(probe_dir),
+           "scandir_probe": [e.name for e in os.scandir(probe_dir)],
+           "key_order_probe": list(permute_keys({n: 1 for n in probe_names}, job["keyperm"], "probe")),
+           "pkgs": dumps}
     tmp = argv[2] + ".tmp"
     with open(tmp, "w") as f:
         json.dump(out, f, sort_keys=True)
